@@ -307,6 +307,7 @@ impl Shard {
             if *failed.borrow() {
                 sh.frozen = true;
             }
+            crate::watchdog::case_started();
             let r = f(sh, &tape);
             let r = match r {
                 Ok(()) => Ok(()),
